@@ -2,14 +2,16 @@
 # usage: tools/seed_confirm.sh <workdir> <k>   (workdir has repo/ and out/<k>/{patch.diff,demo.c})
 # Confirms in the scratch worktree: patch applies, library builds, the repo's tests pass, demo fails with the patch and passes without.
 set -u
-W=$1; K=$2; R=$W/repo; O=$W/out/$K; B=$W/cbuild
+W=$1; K=$2; R=$W/repo; O=$W/out/$K; B=$W/build; BF=$W/build_fixed
 git -C $R checkout -q -- . ; git -C $R status --porcelain --untracked-files=no | grep -q . && { echo "worktree dirty"; exit 2; }
-build() { cmake -G Ninja -S $R -B $B -DCMAKE_BUILD_TYPE=Release -DOPUS_BUILD_TESTING=ON >/dev/null 2>&1 && cmake --build $B >/dev/null 2>&1; }
-demo() { # compile with the command in the first comment line (library path rewritten to our build dir), then run ./demo
-  cc=$(head -3 $O/demo.c | grep -oE "(gcc|clang|cc) .* -o demo" | head -1 | sed "s#$W/build/#$B/#g")
+needfixed=0; grep -q "build_fixed" $O/demo.c $O/notes.md 2>/dev/null && needfixed=1
+build() { cmake -G Ninja -S $R -B $B -DCMAKE_BUILD_TYPE=Release -DOPUS_BUILD_TESTING=ON >/dev/null 2>&1 && cmake --build $B >/dev/null 2>&1 || return 1
+  if [ $needfixed = 1 ]; then cmake -G Ninja -S $R -B $BF -DCMAKE_BUILD_TYPE=Release -DOPUS_BUILD_TESTING=ON -DOPUS_FIXED_POINT=ON >/dev/null 2>&1 && cmake --build $BF >/dev/null 2>&1 || return 1; fi; }
+demo() { # compile with the command given in the leading comment of demo.c (the text from the compiler name up to "&&" / end of comment), then run ./demo
+  cc=$(head -8 $O/demo.c | tr '\n' ' ' | grep -oE "(gcc|clang|cc) +-[^&]*" | grep -E "demo\.c" | head -1 | sed 's#\*/.*##; s# \* # #g; s#(exit.*##')
   ( cd $O && rm -f demo && if [ -n "$cc" ]; then eval "$cc" >/dev/null 2>&1; else clang -O1 -I$R/include -I$R/celt -I$R/silk -I$R/src -DOPUS_BUILD demo.c $B/libopus.a -lm -o demo >/dev/null 2>&1; fi
     [ -x ./demo ] || { echo "demo-build-failed"; exit; }
-    timeout 900 ./demo >/dev/null 2>&1; echo $? )
+    timeout 1200 ./demo >/dev/null 2>&1; echo $? )
 }
 git -C $R apply $O/patch.diff || { echo "patch does not apply"; exit 2; }
 build || { echo "build failed with patch"; git -C $R checkout -q -- .; exit 2; }
